@@ -14,6 +14,7 @@ from ..core import AnalysisError, Loc, Report, Source, norm
 from ..handlers import FnRef, closure, concrete_handlers, parent_map, stores
 from ..protocol import HandlerProtocol, _is_copy_of
 from ..pyfront import ClassInfo, Program, body_without_docstring, dotted, param_names, self_attr
+from ..normalize import canon
 from ..selftest import Edit
 from ..writers import all_field_writes, taint_from_params
 
@@ -223,6 +224,7 @@ def analyse(src: Source) -> List[Report]:
     ins = sh.methods.get("insert_into_global_state")
     if ins is None:
         raise AnalysisError("insert_into_global_state not found")
+    ins = canon(prog, sh, ins)
     loops = [n for n in body_without_docstring(ins) if isinstance(n, ast.For)]
     loc = Loc(file, ins.lineno, f"{sh.name}.{ins.name}")
     if len(loops) != 1:
@@ -253,6 +255,7 @@ def analyse(src: Source) -> List[Report]:
     for mi, ci, fn in prog.functions():
         if ci is None or not prog.is_subclass(ci, "EventHandler"):
             continue
+        fn = canon(prog, ci, fn, helpers=False)
         parents = parent_map(fn)
         for stmt, field, recv, elementwise, value in stores(fn):
             if field not in ("velocity", "time_stamp", "position") or value is None or elementwise:
